@@ -293,6 +293,10 @@ pub struct Env {
     pub cur_rx_continuous: bool,
     /// set by rx_continuous when nothing is left to deliver (the future stays pending)
     pub rxc_idle: bool,
+    /// waits (radio calls and timer waits) of the current operation counted so far (cancellation points)
+    pub await_idx: u16,
+    /// the scripted cancellation point was reached: the wait stays pending and the harness drops the future
+    pub cancel_hit: bool,
     // device rng
     pub rng: Rng,
     pub draws_in_call: u64,
@@ -337,6 +341,8 @@ impl Env {
             cur_rx: None,
             cur_rx_continuous: false,
             rxc_idle: false,
+            await_idx: 0,
+            cancel_hit: false,
             rng: Rng::new(mix(cfg.dev_seed, "devrng", 0)),
             draws_in_call: 0,
             draws_total: 0,
@@ -364,6 +370,8 @@ impl Env {
         self.cursor = [0; 5];
         self.phase = Phase::Idle;
         self.rxc_idle = false;
+        self.await_idx = 0;
+        self.cancel_hit = false;
         self.txn = txn.cloned().unwrap_or_default();
         self.fault = self.txn.fault.clone();
         self.listen_frames.clear();
@@ -387,6 +395,24 @@ impl Env {
         self.push(Ev::OpEnd { idx, result });
         self.phase = Phase::Idle;
         self.fault = None;
+    }
+
+    /// A wait of the current operation begins (a radio call that has just taken effect, a receive window about to
+    /// open, a timer wait): true when the application abandons the operation here (the wait then never completes).
+    pub fn cancel_check(&mut self, what: &'static str) -> bool {
+        let k = self.await_idx;
+        self.await_idx += 1;
+        if self.cancel_hit {
+            return true;
+        }
+        if self.txn.cancel_at == Some(k) {
+            self.cancel_hit = true;
+            self.bump("fault.cancel");
+            self.bump(what);
+            self.push(Ev::Fault { kind: what, pos: k });
+            return true;
+        }
+        false
     }
 
     /// Next radio-call position; returns true when the scripted fault hits this call.
@@ -1013,6 +1039,16 @@ impl<const P: u8, const G: i8> SimRadio<P, G> {
     }
 }
 
+/// The wait of a call the application abandons: never completes (the harness drops the enclosing future).
+pub struct PendForever;
+
+impl core::future::Future for PendForever {
+    type Output = ();
+    fn poll(self: core::pin::Pin<&mut Self>, _cx: &mut core::task::Context<'_>) -> core::task::Poll<()> {
+        core::task::Poll::Pending
+    }
+}
+
 struct RxContFuture<'a> {
     env: EnvRef,
     buf: &'a mut [u8],
@@ -1036,19 +1072,36 @@ impl<const P: u8, const G: i8> aradio::PhyRxTx for SimRadio<P, G> {
     const MAX_RADIO_POWER: u8 = P;
 
     async fn tx(&mut self, config: aradio::TxConfig, buf: &[u8]) -> Result<u32, Self::PhyError> {
-        self.env.borrow_mut().a_tx(config, buf)
+        let r = self.env.borrow_mut().a_tx(config, buf);
+        // the frame is on the air; the application may give up waiting for the end of the transmission
+        if self.env.borrow_mut().cancel_check("fault.cancel-in-tx") {
+            PendForever.await;
+        }
+        r
     }
     async fn setup_rx(&mut self, config: aradio::RxConfig) -> Result<(), Self::PhyError> {
-        self.env.borrow_mut().a_setup_rx(config)
+        let r = self.env.borrow_mut().a_setup_rx(config);
+        if self.env.borrow_mut().cancel_check("fault.cancel-in-setup_rx") {
+            PendForever.await;
+        }
+        r
     }
     async fn rx_continuous(&mut self, rx_buf: &mut [u8]) -> Result<(usize, aradio::RxQuality), Self::PhyError> {
         RxContFuture { env: self.env.clone(), buf: rx_buf }.await
     }
     async fn rx_single(&mut self, buf: &mut [u8]) -> Result<aradio::RxStatus, Self::PhyError> {
+        // abandoned before anything is heard in the window
+        if self.env.borrow_mut().cancel_check("fault.cancel-in-rx_single") {
+            PendForever.await;
+        }
         self.env.borrow_mut().a_rx_single(buf)
     }
     async fn low_power(&mut self) -> Result<(), Self::PhyError> {
-        self.env.borrow_mut().a_low_power()
+        let r = self.env.borrow_mut().a_low_power();
+        if self.env.borrow_mut().cancel_check("fault.cancel-in-low_power") {
+            PendForever.await;
+        }
+        r
     }
 }
 
@@ -1117,6 +1170,10 @@ impl aradio::Timer for SimTimer {
         e.push(Ev::TimerReset { now });
     }
     async fn at(&mut self, millis: u64) {
+        // abandoned before the time has passed
+        if self.env.borrow_mut().cancel_check("fault.cancel-in-timer") {
+            PendForever.await;
+        }
         let mut e = self.env.borrow_mut();
         let target = e.timer_base + millis;
         if target > e.now_ms {
@@ -1126,6 +1183,9 @@ impl aradio::Timer for SimTimer {
         e.push(Ev::TimerAt { ms: millis, now_after });
     }
     async fn delay_ms(&mut self, millis: u64) {
+        if self.env.borrow_mut().cancel_check("fault.cancel-in-timer") {
+            PendForever.await;
+        }
         let mut e = self.env.borrow_mut();
         e.now_ms += millis;
         e.push(Ev::TimerDelay { ms: millis });
